@@ -257,6 +257,10 @@ func hbWrite(p unsafe.Pointer, site string, tag uintptr) {
 // R / W are the access probes inserted by the instrumenter in tracking mode; MR / MW are the
 // accesses to a map's contents (keyed apart from the field that holds the map).
 func R(p unsafe.Pointer, site string)  { hbRead(p, site, 0) }
+
+// Rt is R for conditionally evaluated operands: the instrumenter rewrites `a && b.f` into `a && (vrt.Rt(&b.f) && b.f)`,
+// so the read is announced exactly when - and only when - the operand is evaluated.
+func Rt(p unsafe.Pointer, site string) bool { hbRead(p, site, 0); return true }
 func W(p unsafe.Pointer, site string)  { hbWrite(p, site, 0) }
 func MR(p unsafe.Pointer, site string) { hbRead(p, site, 1) }
 func MW(p unsafe.Pointer, site string) { hbWrite(p, site, 1) }
